@@ -1,12 +1,385 @@
-//! C17 — not built yet.
-use crate::runner::{Outcome, Summary};
-use crate::Ctx;
-use serde_json::Value;
+//! C17 — calibration expansion is a complete, faithful substitution.
+//!
+//! replay: TLC cases {gcals, mcals, src, status, out, decls, per, ...} from spec/mc/MC_CalExpand.tla: the
+//!         program is built on the real library, expanded through `Program::expand_calibrations`,
+//!         `Program::expand_calibrations_with_source_map` and `Calibrations::expand` per instruction; the
+//!         listings must equal the model's declarative expansion, the two entry points must agree, the
+//!         result must be a fixpoint of the real matcher and must hold no declaration.
+//! drive:  seeded random calibration programs (deeper and wider than the exhaustive bound) with the
+//!         CalExpand* hooks installed; events reset/enter/recursive/matched/done/end go to
+//!         spec/trace/CalExpandTrace.tla (also used by C18).
+//!
+//! Shared with C18/C19: `run_program`, `random_program`.
 
-pub fn replay(_ctx: &Ctx, _case: &Value) -> Outcome {
-    panic!("C17: replay not implemented")
+use super::c16::abs;
+use crate::runner::{Outcome, Summary, Violation};
+use crate::util;
+use crate::Ctx;
+use quil_rs::instruction::Instruction;
+use quil_rs::program::ProgramError;
+use quil_rs::Program;
+use rand::seq::SliceRandom;
+use rand::Rng;
+use serde_json::{json, Value};
+
+/// Result category of an expansion entry point.
+pub fn category<T>(r: &Result<T, ProgramError>) -> &'static str {
+    match r {
+        Ok(_) => "done",
+        Err(ProgramError::RecursiveCalibration(_)) => "recursive",
+        Err(_) => "other-error",
+    }
 }
 
-pub fn drive(_ctx: &Ctx) -> Summary {
-    panic!("C17: drive not implemented")
+pub fn body_abs(p: &Program) -> Vec<Value> {
+    p.body_instructions().map(abs::instr_to_abs).collect()
+}
+
+pub fn decl_names(p: &Program) -> Vec<String> {
+    p.memory_regions.keys().cloned().collect()
+}
+
+fn has_match(p: &Program, i: &Instruction) -> bool {
+    match i {
+        Instruction::Gate(g) => p.calibrations.get_match_for_gate(g).is_some(),
+        Instruction::Measurement(m) => p.calibrations.get_match_for_measurement(m).is_some(),
+        _ => false,
+    }
+}
+
+fn names_of(v: &Value) -> Vec<String> {
+    v.as_array().map(|a| a.iter().map(|d| d["name"].as_str().unwrap_or("").to_string()).collect()).unwrap_or_default()
+}
+
+pub fn replay(_ctx: &Ctx, case: &Value) -> Outcome {
+    let case = match case.get("history") {
+        Some(h) => h[0].clone(), // a recorded history: its reset event carries the program
+        None => case.clone(),
+    };
+    let program = abs::program_from_abs(&case);
+    let src: Vec<Instruction> = program.body_instructions().cloned().collect();
+    let mut o = Outcome::ok(src.iter().any(|i| has_match(&program, i)));
+    let plain = program.expand_calibrations();
+    let mapped = program.expand_calibrations_with_source_map();
+    let want_status = case.get("status").and_then(|s| s.as_str());
+
+    // "gives the same program with or without a source map"
+    match (&plain, &mapped) {
+        (Ok(a), Ok((b, _))) => {
+            if a != b {
+                o.violate(Violation::new(
+                    "expand_calibrations vs expand_calibrations_with_source_map",
+                    json!(body_abs(a)),
+                    json!(body_abs(b)),
+                ));
+            }
+        }
+        (Err(_), Err(_)) => {}
+        _ => o.violate(Violation::new(
+            "expand_calibrations vs expand_calibrations_with_source_map",
+            json!(category(&plain)),
+            json!(category(&mapped)),
+        )),
+    }
+
+    match &plain {
+        Ok(p) => {
+            let got = body_abs(p);
+            // independent of the model: the result is a fixpoint of the real matcher and holds no declaration
+            if let Some(i) = p.body_instructions().find(|i| has_match(p, i)) {
+                o.violate(
+                    Violation::new("fixpoint", json!("no output instruction has a matching calibration"), abs::instr_to_abs(i))
+                        .note("expansion must repeat until no body instruction has a match"),
+                );
+            }
+            if p.body_instructions().any(|i| matches!(i, Instruction::Declaration(_))) {
+                o.violate(Violation::new("declarations hoisted", json!("no DECLARE in the body"), json!(got)));
+            }
+            match want_status {
+                Some("done") => {
+                    if json!(got) != case["out"] {
+                        o.violate(
+                            Violation::new("expanded body", case["out"].clone(), json!(got))
+                                .note("expected: every matching instruction replaced by the calibration body with qubits, parameters (and for MEASURE the qubit and target) substituted, repeatedly; unmatched instructions kept in order"),
+                        );
+                    }
+                    let mut want_decls = names_of(&case["decls"]);
+                    let mut got_decls = decl_names(p);
+                    want_decls.sort();
+                    got_decls.sort();
+                    if want_decls != got_decls {
+                        o.violate(Violation::new("hoisted declarations", json!(want_decls), json!(got_decls)));
+                    }
+                }
+                Some(other) => o.diverge(format!("model expects {other}, expansion succeeded")),
+                None => {}
+            }
+        }
+        Err(e) => match want_status {
+            Some("done") => o.violate(
+                Violation::new("expanded body", case["out"].clone(), json!(format!("error: {e}")))
+                    .note("the model expands this program without re-entering any instruction"),
+            ),
+            Some("recursive") if category(&plain) != "recursive" => o.diverge(format!("error kind: {e}")),
+            _ => {}
+        },
+    }
+
+    // Calibrations::expand per body instruction
+    if let Some(per) = case.get("per").and_then(|p| p.as_array()) {
+        for (i, want) in src.iter().zip(per) {
+            let got = program.calibrations.expand(i, &[]);
+            let got_abs = match &got {
+                Ok(None) => json!({"none": true}),
+                Ok(Some(v)) => json!({"ok": abs::listing(v)}),
+                Err(ProgramError::RecursiveCalibration(_)) => json!({"err": true}),
+                Err(e) => json!({"other": e.to_string()}),
+            };
+            if got_abs != *want {
+                if want.get("ok").is_some() || want.get("none").is_some() {
+                    o.violate(Violation::new("Calibrations::expand listing", want.clone(), got_abs));
+                } else {
+                    o.diverge(format!("Calibrations::expand: model {want}, code {got_abs}"));
+                }
+            }
+        }
+    }
+    o
+}
+
+// ------------------------------------------------------------------------------------------- shared driver
+
+fn qf(n: u64) -> Value {
+    json!({"t": "fixed", "n": n})
+}
+fn qv(s: &str) -> Value {
+    json!({"t": "var", "s": s})
+}
+fn ev(v: &str) -> Value {
+    json!({"t": "var", "v": v})
+}
+fn ins(k: &str, name: &str, params: Vec<Value>, qubits: Vec<Value>, mref: Option<(&str, u64)>, data: &str) -> Value {
+    json!({"k": k, "name": name, "mods": [], "params": params, "qubits": qubits,
+           "mref": match mref { Some((n, i)) => json!({"some": {"name": n, "index": i}}), None => json!({"none": true}) },
+           "data": data})
+}
+
+const CAL_NAMES: &[&str] = &["A", "B", "C", "D", "E"];
+
+/// a random expression over the calibration's parameter variable (if any)
+fn rexpr(r: &mut impl Rng, var: Option<&str>, grow: bool) -> Value {
+    let base = match (var, r.gen_range(0..4)) {
+        (Some(v), 0..=2) => ev(v),
+        (_, 3) => json!({"t": "pi2"}),
+        _ => json!({"t": "int", "n": r.gen_range(0..3)}),
+    };
+    // growing expressions only where the call structure is acyclic (else the expansion need not be finite)
+    match r.gen_range(0..6) {
+        0 if grow => json!({"t": "plus1", "e": base}),
+        1 if grow && base["t"] != "int" => json!({"t": "neg", "e": base}),
+        _ => base,
+    }
+}
+
+/// the head of a gate calibration: (level, name, params, qubits)
+type Head = (usize, &'static str, Vec<Value>, Vec<Value>);
+
+/// an invocation of `h` from a context with qubit variables `qs` and parameter variable `var`
+fn call_of(r: &mut impl Rng, h: &Head, qs: &[Value], var: Option<&str>, grow: bool) -> Value {
+    let qubits: Vec<Value> = h
+        .3
+        .iter()
+        .map(|q| {
+            if q["t"] == "fixed" && r.gen_bool(0.8) {
+                q.clone()
+            } else if !qs.is_empty() && r.gen_bool(0.7) {
+                qs.choose(r).unwrap().clone()
+            } else {
+                qf(r.gen_range(0..3))
+            }
+        })
+        .collect();
+    let params: Vec<Value> = h.2.iter().map(|p| if p["t"] == "var" || r.gen_bool(0.2) { rexpr(r, var, grow) } else { p.clone() }).collect();
+    json!({"k": "Gate", "name": h.1, "mods": [], "params": params, "qubits": qubits, "mref": {"none": true}, "data": ""})
+}
+
+/// a random body instruction of a gate calibration with qubit variables `qs` and parameter variable `var`;
+/// `callees`: heads it may invoke (chosen so that the call graph is acyclic unless cycles are wanted)
+fn rbody_instr(r: &mut impl Rng, qs: &[Value], var: Option<&str>, callees: &[&Head], allow_declare: bool, grow: bool) -> Value {
+    let q = |r: &mut dyn rand::RngCore| if qs.is_empty() || r.gen_bool(0.2) { qf(r.gen_range(0..3)) } else { qs.choose(r).unwrap().clone() };
+    match r.gen_range(0..20) {
+        0..=7 if !callees.is_empty() => {
+            let h = *callees.choose(r).unwrap();
+            call_of(r, h, qs, var, grow)
+        }
+        7 | 8 => ins("Measure", "", vec![], vec![q(r)], if r.gen_bool(0.6) { Some(("ro", r.gen_range(0..2))) } else { None }, ""),
+        9 => ins("Reset", "", vec![], if r.gen_bool(0.8) { vec![q(r)] } else { vec![] }, None, ""),
+        10 => match r.gen_range(0..2) {
+            0 => ins("Delay", "", vec![rexpr(r, var, grow)], vec![q(r)], None, ""),
+            _ => ins("Fence", "", vec![], vec![q(r), q(r)], None, ""),
+        },
+        11 => ins("Pulse", "rf", vec![rexpr(r, var, grow)], vec![q(r)], None, ""),
+        12 => ins("Capture", "ro", vec![rexpr(r, var, grow)], vec![q(r)], Some(("ro", r.gen_range(0..2))), ""),
+        13 => ins("RawCapture", "ro", vec![rexpr(r, var, grow)], vec![q(r)], Some(("raw", 0)), ""),
+        14 => {
+            let k = *["SetFrequency", "SetPhase", "SetScale", "ShiftFrequency", "ShiftPhase"].choose(r).unwrap();
+            ins(k, "rf", vec![rexpr(r, var, grow)], vec![q(r)], None, "")
+        }
+        15 => ins("SwapPhases", "rf", vec![], vec![q(r), q(r)], None, ""),
+        16 if allow_declare => {
+            let n = *["a", "b"].choose(r).unwrap();
+            ins("Declare", n, vec![], vec![], None, "")
+        }
+        17 => ins("Move", "", vec![], vec![], Some(("other", r.gen_range(0..2))), ""),
+        18 => ins("Pragma", "foo", vec![], vec![], None, ""),
+        _ => ins("Nop", "", vec![], vec![], None, ""),
+    }
+}
+
+/// A random calibration program {gcals, mcals, src}.  `cyclic`: calls may go to any definition (cycles
+/// likely) and parameters never grow along calls; otherwise calls only go to definitions of a higher
+/// level (acyclic, so that the expansion is finite) and parameters may grow.
+pub fn random_program(r: &mut impl Rng, cyclic: bool, allow_declare: bool, max_body: usize) -> Value {
+    let ncal = r.gen_range(2..=6);
+    let mut heads: Vec<Head> = vec![];
+    for k in 0..ncal {
+        // several definitions may share a name (precedence matters); level = index into CAL_NAMES
+        let level = r.gen_range(0..CAL_NAMES.len());
+        let params = match r.gen_range(0..10) {
+            0..=5 => vec![ev(["t", "u"][k % 2])],
+            6 | 7 => vec![json!({"t": "int", "n": r.gen_range(0..3)})],
+            _ => vec![],
+        };
+        let nq = r.gen_range(1..=2);
+        let vars = ["q", "r"];
+        let qubits: Vec<Value> = (0..nq).map(|n| if r.gen_bool(0.6) { qv(vars[n]) } else { qf(r.gen_range(0..3)) }).collect();
+        heads.push((level, CAL_NAMES[level], params, qubits));
+    }
+    let mut gcals = vec![];
+    for h in &heads {
+        let callees: Vec<&Head> = heads.iter().filter(|c| cyclic || c.0 > h.0).collect();
+        let var = h.2.first().filter(|p| p["t"] == "var").and_then(|p| p["v"].as_str());
+        let qvars: Vec<Value> = h.3.iter().filter(|q| q["t"] == "var").cloned().collect();
+        let nb = r.gen_range(1..=max_body);
+        let body: Vec<Value> = (0..nb).map(|_| rbody_instr(r, &qvars, var, &callees, allow_declare, !cyclic)).collect();
+        gcals.push(json!({"k": "DefCal", "name": h.1, "mods": [], "params": h.2, "qubits": h.3, "body": body}));
+    }
+    let all: Vec<&Head> = heads.iter().collect();
+    let mut mcals = vec![];
+    for _ in 0..r.gen_range(0..=2) {
+        let qubit = if r.gen_bool(0.6) { qv("q") } else { qf(r.gen_range(0..3)) };
+        let target = if r.gen_bool(0.7) { "addr" } else { "" };
+        let qvars = if qubit["t"] == "var" { vec![qubit.clone()] } else { vec![] };
+        let nb = r.gen_range(1..=max_body);
+        let body: Vec<Value> = (0..nb)
+            .map(|_| match r.gen_range(0..6) {
+                0 if !target.is_empty() => ins("Capture", "ro", vec![json!({"t": "pi2"})], vec![qubit.clone()], Some(("addr", 0)), ""),
+                1 if !target.is_empty() => ins("RawCapture", "ro", vec![json!({"t": "int", "n": 1})], vec![qubit.clone()], Some(("addr", 0)), ""),
+                2 => ins("Pragma", "LOAD-MEMORY", vec![], vec![], None, if r.gen_bool(0.6) { target } else { "other" }),
+                3 => ins("Capture", "ro", vec![json!({"t": "pi2"})], vec![qubit.clone()], Some(("other", 1)), ""),
+                _ => {
+                    // no MEASURE inside a measurement calibration (the statement does not decide whether its
+                    // target is a "use of the target name"); gate calibrations may measure, so in the cyclic
+                    // mode calls from here could reach a MEASURE again: allow calls only in the acyclic mode
+                    let mut i = rbody_instr(r, &qvars, None, &[], allow_declare, false);
+                    while i["k"] == "Measure" {
+                        i = rbody_instr(r, &qvars, None, &[], allow_declare, false);
+                    }
+                    i
+                }
+            })
+            .collect();
+        // identical signatures replace each other; that is fine (the set is what the program holds)
+        mcals.push(json!({"k": "DefCalMeasure", "name": "", "qubit": qubit, "target": target, "body": body}));
+    }
+    let ns = r.gen_range(1..=5);
+    let src: Vec<Value> = (0..ns)
+        .map(|_| {
+            let mut i = rbody_instr(r, &[], None, &all, false, true);
+            while i["k"] == "Declare" {
+                i = rbody_instr(r, &[], None, &all, false, true);
+            }
+            i
+        })
+        .collect();
+    // the program as the real library holds it (redefinitions collapse): re-abstract the definitions
+    let p = abs::program_from_abs(&json!({"gcals": gcals, "mcals": mcals, "src": src}));
+    let g: Vec<Value> = p.calibrations.iter_calibrations().map(|c| abs::gate_ident_to_abs(&c.identifier, &c.instructions)).collect();
+    let m: Vec<Value> = p.calibrations.iter_measure_calibrations().map(|c| abs::meas_ident_to_abs(&c.identifier, &c.instructions)).collect();
+    json!({"gcals": g, "mcals": m, "src": abs::listing(&p.body_instructions().cloned().collect::<Vec<_>>())})
+}
+
+/// Run one expansion with the hooks installed; returns (events, result category, program, max depth).
+pub fn run_hooked(prog: &Value, with_map: bool) -> (Vec<Value>, Result<Program, ProgramError>, usize) {
+    use std::cell::RefCell;
+    use std::rc::Rc;
+    let program = abs::program_from_abs(prog);
+    let events: Rc<RefCell<Vec<Value>>> = Rc::new(RefCell::new(vec![]));
+    let depth: Rc<RefCell<usize>> = Rc::new(RefCell::new(0));
+    let (sink, dsink) = (events.clone(), depth.clone());
+    quil_rs::verif::set_sink(Box::new(move |e| {
+        use quil_rs::verif::VerifEvent::*;
+        match e {
+            CalExpandEnter { instruction, depth } => {
+                sink.borrow_mut().push(json!({"ev": "enter", "instr": abs::instr_to_abs(instruction), "depth": depth}))
+            }
+            CalExpandRecursive { instruction, depth } => {
+                sink.borrow_mut().push(json!({"ev": "recursive", "instr": abs::instr_to_abs(instruction), "depth": depth}))
+            }
+            CalExpandMatched { instruction, depth, body_len } => {
+                if body_len.is_some() {
+                    let mut d = dsink.borrow_mut();
+                    *d = (*d).max(depth + 1);
+                }
+                sink.borrow_mut().push(json!({"ev": "matched", "instr": abs::instr_to_abs(instruction), "depth": depth,
+                                              "body_len": body_len.map(|n| n as i64).unwrap_or(-1)}))
+            }
+            _ => {}
+        }
+    }));
+    let res = if with_map { program.expand_calibrations_with_source_map().map(|(p, _)| p) } else { program.expand_calibrations() };
+    quil_rs::verif::clear_sink();
+    let evs = events.borrow().clone();
+    let d = *depth.borrow();
+    (evs, res, d)
+}
+
+/// drive shared by C17 and C18: random programs, hook events, final result
+pub fn drive_traces(ctx: &Ctx, stream: u64, cyclic_share: f64) -> Summary {
+    let n = ctx.arg_u64("n", 100);
+    let max_body = ctx.arg_u64("body", 4) as usize;
+    let path = ctx.arg_str("out").expect("--out");
+    let mut out = std::io::BufWriter::new(std::fs::File::create(path).expect("create trace"));
+    let mut rng = util::rng(ctx.seed, stream);
+    let mut sum = Summary::default();
+    for h in 0..n {
+        let cyclic = rng.gen_bool(cyclic_share);
+        let prog = random_program(&mut rng, cyclic, true, max_body);
+        let with_map = h % 2 == 0;
+        let (events, res, depth) = run_hooked(&prog, with_map);
+        let mut reset = prog.clone();
+        reset["ev"] = json!("reset");
+        reset["with_map"] = json!(with_map);
+        util::emit(&mut out, &reset);
+        for e in &events {
+            util::emit(&mut out, e);
+        }
+        let (status, body, decls) = match &res {
+            Ok(p) => ("done", body_abs(p), decl_names(p)),
+            Err(_) => (category(&res), vec![], vec![]),
+        };
+        util::emit(&mut out, &json!({"ev": "done", "status": status, "out": body, "decls": decls, "depth": depth}));
+        util::emit(&mut out, &json!({"ev": "end"}));
+        let expanded = events.iter().any(|e| e["ev"] == "matched" && e["body_len"].as_i64().unwrap_or(-1) >= 0);
+        let nontrivial = if ctx.mode.starts_with("C18") { status == "recursive" || depth >= 2 } else { expanded };
+        let mut o = Outcome::ok(nontrivial);
+        o.count_n("events", events.len() as u64 + 3);
+        o.count_n(&format!("status_{status}"), 1);
+        sum.absorb(&prog, &o, true);
+    }
+    sum
+}
+
+pub fn drive(ctx: &Ctx) -> Summary {
+    drive_traces(ctx, 17, 0.15)
 }
